@@ -293,7 +293,8 @@ INTSPEC = ["signed char", "unsigned char", "char signed", "signed int", "signed"
            "unsigned long long", "long long unsigned", "signed long long", "size_t", "int32_t", "uint8_t", "float", "long double",
            "signed double", "unsigned float", "short char"]
 PTRS = ["", "*", "&", "**", "*&", "* const", "* const *", "const *"]
-ATTRS = ["", " +intent(in)", " +rank(1)", " +dimension(n,m)", " +value", " +len=30", " +name(other)", " +deref(pointer)"]
+ATTRS = ["", " +intent(in)", " +rank(1)", " +dimension(n,m)", " +value", " +len=30", " +name(other)", " +deref(pointer)",
+         " +rank=0", " +len=0", " +rank(0)", " +value=0", " +charlen(0)"]
 
 
 def expr_family():
@@ -339,6 +340,10 @@ def cxx_family():
                 "void f(%s *, %s)" % (s, s), "%s *f(void)" % s, "%s f()" % s, "void f(%s (*)(void))" % s,
                 "void f(const %s * const * a)" % s.replace("const ", ""), "std::vector<%s> f(std::vector<%s> &v)" % (
                     s.replace("const ", ""), s.replace("const ", ""))]
+    # grouping parentheses that are not a function pointer: pointers / references to arrays
+    for s in ("int", "double", "const char"):
+        out += ["%s (*rows)[3]" % s, "void f(%s (*rows)[3])" % s, "%s (*grid)[2][3]" % s, "%s *ptrs[3]" % s, "void f(%s *ptrs[3])" % s,
+                "%s (*solo)" % s, "void f(%s (*solo))" % s]
     out = [t for t in out if not t.startswith("void  a") and not t.startswith("void & ") and "void &" not in t and "void a[" not in t
            and "std::vector<void>" not in t and not t.startswith("const void") or "*" in t]
     return out
